@@ -120,6 +120,28 @@ try:
 except Exception as e:      # noqa
     bad.append("closed-system conservation part raised %s: %s" % (type(e).__name__, str(e)[:120]))
 
+# ---- the generator is followed for every refinement, also on a propagator that has been used before with another refinement -------
+try:
+    from quantarhei.qm import PureDephasing
+    tr_ = qr.TimeAxis(0.0, 40, 1.0)
+    with qr.energy_units("int"):
+        Hd_ = qr.Hamiltonian(data=[[0.0, 0.0, 0.0], [0.0, 1.0, 0.1], [0.0, 0.1, 1.2]])
+    for kind_ in ("Lorentzian", "Gaussian"):
+        rates_ = numpy.array([[0.0, 0.02, 0.03], [0.02, 0.0, 0.01], [0.03, 0.01, 0.0]])
+        rho_ = qr.ReducedDensityMatrix(data=numpy.full((3, 3), 1.0 / 3.0))
+        lf_ = LindbladForm(Hd_, SystemBathInteraction(sys_operators=[qr.qm.ProjectionOperator(0, 1, dim=3)], rates=(0.001,)),
+                           as_operators=False)
+        fresh_ = ReducedDensityMatrixPropagator(tr_, Hd_, RTensor=lf_, PDeph=PureDephasing(rates_.copy(), dtype=kind_))
+        want_ = fresh_.propagate(rho_, Nref=5).data.copy()
+        used_ = ReducedDensityMatrixPropagator(tr_, Hd_, RTensor=lf_, PDeph=PureDephasing(rates_.copy(), dtype=kind_))
+        used_.propagate(rho_)
+        got_ = used_.propagate(rho_, Nref=5).data.copy()
+        if abs(got_ - want_).max() > 1e-10:
+            bad.append("%s pure dephasing: propagate(rho, Nref=5) on a propagator used before without refinement differs from the same "
+                       "call on a fresh propagator by %.3e" % (kind_, abs(got_ - want_).max()))
+except Exception as e:      # noqa
+    bad.append("refinement-after-reuse part raised %s: %s" % (type(e).__name__, str(e)[:120]))
+
 # ---- rotating frame <-> laboratory frame of a stored evolution: explicit phases, and there-and-back is the identity -----------------
 try:
     from quantarhei.qm.propagators.dmevolution import ReducedDensityMatrixEvolution
